@@ -299,6 +299,20 @@ func loadAllowDropped(r *Result) []allowEntry {
 	return out
 }
 
+// neverFails: standard-library writers documented to return a nil error always
+// (they panic with ErrTooLarge instead); dropping their error loses nothing.
+var neverFails = map[string]string{
+	"(*bytes.Buffer).Write":          "bytes.Buffer.Write: err is always nil",
+	"(*bytes.Buffer).WriteByte":      "bytes.Buffer.WriteByte: the returned error is always nil",
+	"(*bytes.Buffer).WriteRune":      "bytes.Buffer.WriteRune: the returned error is always nil",
+	"(*bytes.Buffer).WriteString":    "bytes.Buffer.WriteString: err is always nil",
+	"(*strings.Builder).Write":       "strings.Builder.Write always returns a nil error",
+	"(*strings.Builder).WriteByte":   "strings.Builder.WriteByte always returns a nil error",
+	"(*strings.Builder).WriteRune":   "strings.Builder.WriteRune always returns a nil error",
+	"(*strings.Builder).WriteString": "strings.Builder.WriteString always returns a nil error",
+	"invoke (hash.Hash).Write":       "hash.Hash.Write never returns an error",
+}
+
 func allowedDrop(list []allowEntry, caller, callee string) (*allowEntry, bool) {
 	for i := range list {
 		if list[i].Caller == caller && list[i].Callee == callee {
@@ -322,6 +336,10 @@ func checkNoDroppedErrors(p *Program, r *Result, pkgs []string) {
 			key := "errcall:" + short(s.Callee)
 			if s.Class != "dropped" {
 				r.OK(fn.String(), key, r.pos(s.Call), s.Class+": "+s.How)
+				continue
+			}
+			if why, ok := neverFails[s.Callee]; ok {
+				r.OK(fn.String(), key, r.pos(s.Call), "dropped: "+why, Witness{Kind: "table", Text: why})
 				continue
 			}
 			if e, ok := allowedDrop(allow, fn.String(), s.Callee); ok && (e.Count == 0 || counts[fn.String()+"|"+s.Callee] < e.Count) && siteAllowed(p, e, s) {
